@@ -28,6 +28,55 @@ def _setup():
     hc.set_alphabet("AC")
     plotting.clustermap_split = Recorder("clustermap_split")
     STATE["defaults"] = hc.mutable_defaults()
+    STATE["globals0"] = _snapshot_globals()
+
+
+def _pyrepseq_modules():
+    import sys
+    return [m for n, m in list(sys.modules.items()) if m is not None and (n == "pyrepseq" or n.startswith("pyrepseq."))]
+
+
+def _snapshot_globals():
+    """import-time value of every module-level plain container of pyrepseq (dict / list / set): the places where a cache or
+    parameter block can live.  Restoring them gives the 'fresh interpreter' state without starting one."""
+    import copy
+    snap = {}
+    for mod in _pyrepseq_modules():
+        names = set(vars(mod))
+        for k, v in list(vars(mod).items()):
+            if k.startswith("__"):
+                continue
+            if type(v) in (dict, list, set):
+                try:
+                    snap[(mod.__name__, k)] = copy.deepcopy(v)
+                except Exception:  # noqa
+                    pass
+        snap[(mod.__name__, "__names__")] = names
+    return snap
+
+
+def _restore_globals():
+    from crosshair.tracers import NoTracing
+    with NoTracing():
+        _restore_globals_plain()
+
+
+def _restore_globals_plain():
+    import copy
+    import sys
+    import types
+    snap = STATE["globals0"]
+    for mod in _pyrepseq_modules():
+        names0 = snap.get((mod.__name__, "__names__"))
+        if names0 is None:
+            continue
+        for k in list(vars(mod)):
+            v = vars(mod)[k]
+            if k not in names0 and not isinstance(v, (types.ModuleType, types.FunctionType, type)):
+                delattr(mod, k)                       # state created at run time (e.g. nn._cal_params)
+        for (mname, k), v in snap.items():
+            if mname == mod.__name__ and k != "__names__":
+                setattr(mod, k, copy.deepcopy(v))
 
 
 def _havoc(sym):
@@ -35,11 +84,24 @@ def _havoc(sym):
     import pyrepseq
     from pyrepseq import nn
     nn._cal_params = ("junk", sym.sym_int("junk", -5, 5, register=False), None, "hamming", 0.0)
+    from crosshair.tracers import NoTracing
+    with NoTracing():            # concrete history calls: plain execution is enough (and much faster)
+        _history(pyrepseq, nn)
+
+
+def _history(pyrepseq, nn):
     try:
         pyrepseq.symdel([], max_edits=1)                # a call that raises
     except Exception:
         pass
     pyrepseq.kdtree(["AA", "AC", "A"], max_edits=2, max_returns=1, custom_distance="hamming")      # leaves its own parameter block behind
+    # the same entry points with OTHER parameter values / inputs of the same sizes: anything memoised too coarsely goes stale
+    pyrepseq.symdel(["AA", "C", "AC"], max_edits=1)
+    pyrepseq.symdel(["AC", "A", "CC"], max_edits=3, custom_distance="hamming")
+    pyrepseq.hash_based(["AA", "C"], max_edits=1)
+    db = nn.LookupDB(["AA", "C"])
+    db.lookup(["AC"], max_edits=2)
+    nn.SymdelDB(["AA", "C"], 1).lookup(["CA"])
     try:
         pyrepseq.kdtree(["AA"], max_edits=0)
     except Exception:
@@ -60,6 +122,18 @@ def _scenarios():
             return (lambda: getattr(pyrepseq, engine)(seqs, max_edits=1, **kw)), {"seqs": seqs}
         return make
     S["symdel"] = (search("symdel"), False)
+
+    def symdel_k2(sym):
+        import pyrepseq
+        seqs = strs(sym, (2, 1, 2), "AC")
+        return (lambda: pyrepseq.symdel(seqs, max_edits=2)), {"seqs": seqs}
+    S["symdel/k=2"] = (symdel_k2, False)
+
+    def hash_k2(sym):
+        import pyrepseq
+        seqs = strs(sym, (2, 1), "AC")
+        return (lambda: pyrepseq.hash_based(seqs, max_edits=2)), {"seqs": seqs}
+    S["hash_based/k=2"] = (hash_k2, False)
     S["nearest_neighbor/ndarray"] = (search("nearest_neighbor", output_type="ndarray"), False)
     S["hash_based"] = (search("hash_based"), False)
     S["kdtree"] = (search("kdtree"), False)
@@ -268,6 +342,7 @@ def _body(name):
         make, randomised = _scenarios()[name]
         thunk, watched = make(sym)
         snaps = {k: hc.shallow_snapshot(v) for k, v in watched.items()}
+        _restore_globals()                 # pristine module state: what a fresh interpreter would see
         r0 = _run(thunk)
         if r0[0] == "raised" and name not in ("kdtree/invalid", "subsample"):
             return False, f"{name}: the scenario call raised {r0[1]}: {r0[2]}"
@@ -278,6 +353,7 @@ def _body(name):
         if bad:
             return False, f"{name}: " + "; ".join(bad)[:400]
         trace = list(np_model.RANDOM.trace)
+        _restore_globals()                 # the scenario's own first run is history too: start the dirty run from pristine state
         _havoc(sym)
         if randomised:
             np_model.RANDOM.trace = trace
@@ -323,6 +399,8 @@ def _replay(name):
             return inputs.get(f"s{i}", "A" * n)
         calls = {
             "symdel": lambda: sorted(pyrepseq.symdel([S(0, 2), S(1), S(2, 2)], max_edits=1)),
+            "symdel/k=2": lambda: sorted(pyrepseq.symdel([S(0, 2), S(1), S(2, 2)], max_edits=2)),
+            "hash_based/k=2": lambda: sorted(pyrepseq.hash_based([S(0, 2), S(1)], max_edits=2)),
             "nearest_neighbor/ndarray": lambda: pyrepseq.nearest_neighbor([S(0, 2), S(1), S(2, 2)], max_edits=1, output_type="ndarray").tolist(),
             "hash_based": lambda: sorted(pyrepseq.hash_based([S(0, 2), S(1), S(2, 2)], max_edits=1)),
             "kdtree": lambda: sorted(pyrepseq.kdtree([S(0, 2), S(1), S(2, 2)], max_edits=1)),
@@ -362,18 +440,54 @@ def _replay(name):
             return r0 == r1, f"{name}: {r0!r} then {r1!r}"
         if name not in calls:
             return True, "no real-stack counterpart (wiring scenario)"
-        r0 = calls[name]()
+        # value in a FRESH interpreter (no history at all)
+        import json as _json
+        import subprocess
+        import sys as _sys
+        fresh = None
+        _FRESH_USED[name] = _FRESH_USED.get(name, 0) + 1
+        if name in ORACLE_CALLS and _FRESH_USED[name] <= 3:       # a new interpreter costs seconds: first three inputs per scenario
+            code = ("import sys, json, warnings; warnings.filterwarnings('ignore'); sys.path[:0] = %r; import pyrepseq; "
+                    "print(json.dumps(sorted([list(map(float, t)) for t in %s])))" % ([hc_path(), rt_repo()], ORACLE_CALLS[name] % tuple(repr(S(i, n)) for i, n in ((0, 2), (1, 1), (2, 2)))))
+            out = subprocess.run([_sys.executable, "-c", code], stdout=subprocess.PIPE, stderr=subprocess.PIPE, timeout=120)
+            if out.returncode == 0:
+                fresh = _json.loads(out.stdout.decode().strip().splitlines()[-1])
+        # history with OTHER parameters first, then the scenario
         pyrepseq.kdtree(["AA", "AC", "A"], max_edits=2, max_returns=1, custom_distance="hamming")
+        pyrepseq.symdel(["AA", "C", "AC"], max_edits=1)
+        pyrepseq.hash_based(["AA", "C"], max_edits=1)
         try:
             pyrepseq.symdel([], max_edits=1)
         except Exception:
             pass
+        r0 = calls[name]()
         r1 = calls[name]()
         bad = hc.defaults_intact(defaults0)
         if bad:
             return False, f"{name}: " + "; ".join(bad)[:400]
+        if fresh is not None and sorted([list(map(float, t)) for t in r0]) != fresh:
+            return False, f"{name}: after other calls {r0!r}, in a fresh interpreter {fresh!r}"
         return r0 == r1, f"{name}: {r0!r} then {r1!r}"
     return replay
+
+
+_FRESH_USED = {}
+ORACLE_CALLS = {
+    "symdel": "pyrepseq.symdel([%s, %s, %s], max_edits=1)",
+    "symdel/k=2": "pyrepseq.symdel([%s, %s, %s], max_edits=2)",
+    "hash_based": "pyrepseq.hash_based([%s, %s, %s], max_edits=1)",
+    "kdtree": "pyrepseq.kdtree([%s, %s, %s], max_edits=1)",
+}
+
+
+def hc_path():
+    import os
+    return os.path.dirname(os.path.dirname(os.path.abspath(__file__)))
+
+
+def rt_repo():
+    from vlib.rt import REPO
+    return REPO
 
 
 def conditions(tier):
